@@ -1121,6 +1121,11 @@ class FnEmitter:
         if 'shared_ptr' in strip_cvref(ot.get('desugaredQualType') or ot.get('qualType') or '').split('<')[0] \
                 and self.ct(obj).startswith('vec_') and mname in ('get', 'operator->', 'operator*'):
             return self.expr(obj)
+        if mname == 'reset' and self.ct(obj).startswith('uptr_') and len([a for a in args if a.get('kind') != 'CXXDefaultArgExpr']) <= 1 \
+                and self.strip(obj).get('kind') == 'DeclRefExpr':
+            # unique_ptr::reset(p) on a local: the variable now owns p (the replaced object's destructor is not modelled)
+            real = [a for a in args if a.get('kind') != 'CXXDefaultArgExpr']
+            return '(%s = (%s)(%s))' % (self.expr(obj), self.ct(obj), self.expr(real[0]) if real else '0')
         rid = cal.get('referencedMemberDecl')
         inlined = self.u.try_inline_method(self, rid, obj, args, n)
         if inlined is not None:
